@@ -3195,3 +3195,23 @@ VARIANTS += [
       "        workers_per_entry = {position: (assignment[\"host\"], assignment[\"workers\"]) for position, assignment in enumerate(worker_assignments)}\n        worker_id = 0\n"
       "        for host, workers in workers_per_entry.values():\n            for clients in workers:\n"),
 ]
+
+# ---- round 6 (seed C02-m16): the allocation rows a started worker receives cover exactly the clients assigned to it (O2.10 all-ids, read through the row view's own reader; the
+# ---- per-client statement is also held by O2.5 'each client gets its own matrix row') -----------------------------------------------------------------------------------------
+_CL_HEAD = "                    client_allocations = ClientAllocations()\n                    worker_client_contexts = {}\n                    for client_id in clients:\n"
+_CL_ADD = "                        client_allocations.add(client_id, self.allocations[client_id])\n"
+_CL_CTX = "                        worker_client_contexts[client_id] = client_context\n"
+_CL_PUB = "                        self.client_contexts[worker_id] = worker_client_contexts\n"
+
+VARIANTS += [
+    [V("s6 break (seed C02-m16): the allocation row is added behind the per-client loop (once per worker, for its last client)", "break", _D, _CL_HEAD + _CL_ADD, _CL_HEAD, "O2.10"),
+     V("", "break", _D, _CL_CTX + _CL_PUB, _CL_CTX + _CL_ADD[4:] + _CL_PUB[4:])],
+    V("s6 break: the row view of a worker is created anew for every client (only the last client's row is left)", "break", _D, _CL_HEAD + _CL_ADD,
+      _CL_HEAD.replace("                    client_allocations = ClientAllocations()\n", "") + "                        client_allocations = ClientAllocations()\n" + _CL_ADD, "O2.10"),
+    V("s6 break: allocation rows are only added for the first client of a worker", "break", _D, _CL_ADD,
+      "                        if client_id == clients[0]:\n    " + _CL_ADD, "O2.10"),
+    V("s6 keep: the client contexts of a worker are published once behind the per-client loop (loop invariant; the worker has at least one client)", "keep", _D,
+      _CL_CTX + _CL_PUB, _CL_CTX + _CL_PUB[4:]),
+    V("s6 keep: the allocation row is looked up before it is added", "keep", _D, _CL_ADD,
+      "                        row = self.allocations[client_id]\n                        client_allocations.add(client_id, row)\n"),
+]
